@@ -468,6 +468,12 @@ class WorkflowConductor(object):
         if status != current_status and current_status == updated_status:
             raise exc.InvalidWorkflowStatusTransition(current_status, wf_ex_event.name)
 
+    def _fail_workflow_on_error(self):
+        # An error that is found while a late report is processed fails the workflow, unless
+        # the workflow is already canceled: a canceled workflow stays canceled.
+        if self.get_workflow_status() != statuses.CANCELED:
+            self.request_workflow_status(statuses.FAILED)
+
     def get_workflow_initial_context(self):
         return json_util.deepcopy(self.workflow_state.contexts[0])
 
@@ -844,7 +850,7 @@ class WorkflowConductor(object):
             except Exception as e:
                 task_state_entry.pop("retry", None)
                 self.log_error(e, task_id=task_id, route=route)
-                self.request_workflow_status(statuses.FAILED)
+                self._fail_workflow_on_error()
 
         # Append the task state entry to the list of task execution.
         task_state_entry_id = constants.TASK_STATE_ROUTE_FORMAT % (task_id, str(route))
@@ -991,7 +997,7 @@ class WorkflowConductor(object):
                 )
             except Exception as e:
                 self.log_error(e, task_id=task_id, route=route)
-                self.request_workflow_status(statuses.FAILED)
+                self._fail_workflow_on_error()
                 retry_task = False
 
             if retry_task:
@@ -1024,7 +1030,7 @@ class WorkflowConductor(object):
                     task_state_entry["next"][task_transition_id] = all(evaluated_criteria)
                 except Exception as e:
                     self.log_error(e, task_id, route, task_transition_id)
-                    self.request_workflow_status(statuses.FAILED)
+                    self._fail_workflow_on_error()
                     continue
 
                 # If criteria met, then mark the next task staged and calculate outgoing context.
@@ -1040,7 +1046,7 @@ class WorkflowConductor(object):
 
                     if errors:
                         self.log_errors(errors, task_id, route, task_transition_id)
-                        self.request_workflow_status(statuses.FAILED)
+                        self._fail_workflow_on_error()
                         continue
 
                     out_ctx_idxs = json_util.deepcopy(task_state_entry["ctxs"]["in"])
